@@ -3,7 +3,7 @@
    helper registration are decided by the check on the real planner (every emitted sub-request is validated by the
    receiving evaluating fake against ITS OWN schema; coverage/helpers through C01's single-server equality). *)
 From Coq Require Import List String Bool Arith.
-From Pebbles Require Import Base.Json Plan.Vars Plan.VarsProofs Plan.Header Plan.HeaderProofs Merge.Model Plan.Steps Plan.StepsProofs Plan.StepsCount Plan.Sanitize Plan.SanitizeProofs.
+From Pebbles Require Import Base.Json Plan.Vars Plan.VarsProofs Plan.Header Plan.HeaderProofs Merge.Model Plan.Steps Plan.StepsProofs Plan.StepsCount Plan.PlanCount Plan.Sanitize Plan.SanitizeProofs.
 Import ListNotations.
 Open Scope string_scope.
 
@@ -112,6 +112,20 @@ Theorem nothing_lost_nothing_sent_twice : forall tm ps f ip p inp l ss cs,
   cnt_l ss + scnt_l cs = cnt_l inp.
 Proof. intros tm ps f ip p inp l ss cs H1 H2 H3 H4. exact (extract_counts tm ps H1 H2 H3 H4 f ip p inp l ss cs). Qed.
 
+(* the plan as a whole: when every root field is routed to one of the listed services, the steps of the plan hold
+   exactly as many field selections as the sanitized operation — each selection is in exactly one step *)
+Theorem the_plan_holds_every_selection_once : forall tm ps urls parent input fuel steps,
+  (forall q n, tm_get tm q n <> Some internal_service) -> (forall q, tm_get tm q "id" = None) ->
+  (forall i, mem i (ps_interfaces ps) = true -> tm_is_node tm i = None) ->
+  (forall t d, In d (possible ps t) -> is_root d = false) ->
+  is_root parent = true -> mem parent (ps_interfaces ps) = false ->
+  NoDup urls -> ~ In internal_service urls ->
+  forallb (frag_ok tm) input = true -> forallb (conc ps) input = true ->
+  (forall a n ty sub, In (PField a n ty sub) (flatten input) -> exists u, In u urls /\ get_url tm parent n internal_service = RUrl u) ->
+  plan_root fuel tm ps urls parent input = Ok steps ->
+  scnt_l steps = cnt_l input.
+Proof. intros tm ps urls parent input fuel steps H1 H2 H3 H4. exact (plan_counts tm ps urls parent input fuel steps H1 H2 H3 H4). Qed.
+
 (* non-vacuity: { me { id name phone friend { id phone } } } with Human.name/friend at a, Human.phone at b *)
 Definition ex_tm : tmap :=
   [("Query", mkTP false [("me", "a")]); ("Human", mkTP true [("name", "a"); ("friend", "a"); ("phone", "b")])].
@@ -175,6 +189,7 @@ Print Assumptions C02_header_needs_annotations.
 Print Assumptions kept_and_moved_fields_are_owned.
 Print Assumptions every_plan_step_asks_for_its_own_fields.
 Print Assumptions nothing_lost_nothing_sent_twice.
+Print Assumptions the_plan_holds_every_selection_once.
 Print Assumptions helpers_added_to_a_field_are_registered.
 Print Assumptions only_the_two_helpers_are_added.
 Print Assumptions a_helper_is_added_only_when_missing.
